@@ -193,7 +193,7 @@ def run(tier: str, seed: int, t0: float) -> int:
         stats.bounds[f"nodes_{sname}"] = len(nodes)
         jobs.append((b, f"G+T validity[{sname}]"))
     # ---- T random
-    for name in schemas.BUNDLED_PLUS + ["s1", "s3", "s4", "nd"]:
+    for name in schemas.BUNDLED_PLUS + ["s1", "s3", "s4", "nd", "bm"]:
         sch, js, pairs = universe.random_docs(name, 20 if not thorough else 200, rng)
         real = [rd for _, rd in pairs]
         nodes = [nd for rd in real for nd in nodes_of(rd)]
